@@ -14,10 +14,15 @@ for d in ${SEEDS:-seeded/*/}; do
     C12_e) props="C12,C11";; C02_f) props="C02,C13";; C14_e) props="C14,C02";;
     C16_e) props="C16,C02";; C16_f) props="C16,C14";; C09_f) props="C09,C10";;
   esac
+  if [ -z "$SEEDALL_SEED" ]; then
   /venv/bin/python - "$d/meta.json" <<'PY'
 import json,sys
 p=sys.argv[1]; m=json.load(open(p)); m["caught_by"]={}; json.dump(m,open(p,"w"),indent=1)
 PY
   tools/seedrun.py $d $x --skip-tests --props $props > /tmp/seedall_$x.log 2>&1
+  else
+  # another seed: a robustness sample, meta.json is left alone
+  tools/seedrun.py $d $x --skip-tests --no-record --seed $SEEDALL_SEED --props $props > /tmp/seedall_$x.log 2>&1
+  fi
   echo "$(grep -E '"C[0-9]+": [0-9]' /tmp/seedall_$x.log | tr -d '\n') <- $x"
 done
